@@ -21,7 +21,7 @@ RULE = ("3 coolers (5-6 bins in 2-3 chromosomes, <=6 pixels, one extra bin colum
         "containing the referenced bins; replace on/off; pixels(join=True) and matrix(as_pixels=True, join=True). Oracle: rows "
         "lo..hi-1 of the raw HDF5 columns with index labels lo..hi-1; each annotated pixel carries chrom/start/end/extra of its own two "
         "bins, order and index of the pixel frame unchanged. Non-trivial: a proper sub-range / >=2 pixels. Distinct by construction.")
-EXTRA_LEGS = 'a square-storage cooler with pixels on both sides of the diagonal (column bins of a selection below all of its row bins).'
+EXTRA_LEGS = 'all selectors (both convert_enum settings, every column subset) are taken from the one Cooler object before any is queried; a square-storage cooler with pixels on both sides of the diagonal (column bins of a selection below all of its row bins).'
 BOUNDS = {"quick": "all slices and column subsets on 3 coolers x 2 encodings; annotate: all contiguous bin slices for selections of size <=2, "
                    "{full, selector, tightest slice} for sizes 3-4",
           "thorough": "as quick plus all contiguous bin slices for size 3 and sequences of length n+2"}
@@ -121,10 +121,12 @@ def _sel(R, unit, only):
     if tab == "pixels":     # a permuted column list must give the columns in the order asked for
         subsets.append(["count", "bin2_id", "bin1_id"])
     kk = 0
+    # ALL selectors (both convert_enum settings, every column subset) are taken from the one Cooler object before any is queried
+    bases = {conv: (getattr(clr, tab)(convert_enum=conv) if tab != "pixels" else clr.pixels(convert_enum=conv)) for conv in (True, False)}
+    sels = {(conv, si): (bases[conv] if sub is None else bases[conv][sub]) for conv in (True, False) for si, sub in enumerate(subsets)}
     for conv in (True, False):
-        base = getattr(clr, tab)(convert_enum=conv) if tab != "pixels" else clr.pixels(convert_enum=conv)
-        for sub in subsets:
-            sel = base if sub is None else base[sub]
+        for si, sub in enumerate(subsets):
+            sel = sels[(conv, si)]
             want_cols = cols if sub is None else ([sub] if isinstance(sub, str) else sub)
             items = [("slice", a, b, lo, hi) for (a, b, lo, hi) in _slices(N)] + [("scalar", s, None, s % N, s % N + 1) for s in range(-N, N)]
             for kind, a, b, lo, hi in items:
